@@ -564,6 +564,14 @@ func (w *World) CheckPendingGlobal(inst *Instance, pend map[wire.Hash]*wire.MsgT
 		if ws.Removing || ws.Uncertain {
 			continue
 		}
+		if w.WalletsComeAndGo && ws.Imported {
+			// a wallet that was removed and imported again: what was pending
+			// on its coins went with the removal, and which pending
+			// transactions of other wallets touch its coins is nobody's record
+			// ("conflicts on inputs that do not belong to the wallet" at the
+			// time are not required to be noticed)
+			continue
+		}
 		for _, ia := range ws.Issued {
 			var h [32]byte
 			copy(h[:], ws.HD.Addr(ia.Index).ScriptHash)
@@ -691,6 +699,57 @@ func runFamily(w *World, p map[string]int, prop string) {
 		return
 	}
 	expect := map[wire.Hash]string{} // transactions that must be pending (C09, structured scenarios)
+	// prune ends expectations: when the transaction confirms, when a best-chain
+	// transaction spends one of its inputs, when a parent is neither confirmed
+	// nor expected. It runs after every operation - a conflict that was on the
+	// best chain at any moment may or may not have reached the wallet (a tip
+	// that is stale when handled is skipped), so from then on the outcome is open
+	// even if a later reorganisation removes the conflict again.
+	prune := func() {
+		if len(expect) == 0 {
+			return
+		}
+		spent := map[wire.OutPoint]bool{}
+		for _, b := range w.Node.BestChain()[1:] {
+			for _, tx := range b.Msg.Transactions {
+				for _, in := range tx.TxIn {
+					spent[in.PreviousOutPoint] = true
+				}
+			}
+		}
+		for changed := true; changed; {
+			changed = false
+			var hs []wire.Hash
+			for h := range expect {
+				hs = append(hs, h)
+			}
+			sort.Slice(hs, func(i, j int) bool { return hs[i].String() < hs[j].String() })
+			for _, h := range hs {
+				tx := w.Node.LookupTx(h)
+				drop := false
+				if _, on := w.Node.OnBestChain(h); on || tx == nil {
+					drop = true
+				} else {
+					for _, in := range tx.TxIn {
+						if spent[in.PreviousOutPoint] {
+							drop = true
+							break
+						}
+						if _, on := w.Node.OnBestChain(in.PreviousOutPoint.Hash); !on {
+							if _, exp := expect[in.PreviousOutPoint.Hash]; !exp {
+								drop = true
+								break
+							}
+						}
+					}
+				}
+				if drop {
+					delete(expect, h)
+					changed = true
+				}
+			}
+		}
+	}
 	check := func() bool {
 		if _, ok := w.S.Quiesce(20000); !ok {
 			w.Violate(prop+".liveness", "not quiescent: %v", w.S.ParkedSummary())
@@ -713,7 +772,8 @@ func runFamily(w *World, p map[string]int, prop string) {
 			if pend, ok = w.PendingSet(inst); !ok {
 				return false
 			}
-			// expectations end when the transaction confirms or is conflicted
+			prune()
+			// (kept for the reader: the same pruning ran after every operation)
 			spent := map[wire.OutPoint]bool{}
 			for _, b := range w.Node.BestChain()[1:] {
 				for _, tx := range b.Msg.Transactions {
@@ -848,6 +908,7 @@ func runFamily(w *World, p map[string]int, prop string) {
 			check()
 			w.Stat("check.midrun")
 		}
+		prune()
 		w.runSteps(t.Int(4))
 		if len(w.S.FatalExits) > 0 || len(w.S.Panics) > 0 {
 			break
